@@ -56,6 +56,10 @@ def _iter_items(s, ctx, it):
                 r = yield from s.call_callable(ctx, fn, [Ref(Cell(x, 'it'))])
                 if not ctx.branch(r): keep = False; break
             elif kind == 'map': x = yield from s.call_callable(ctx, fn, [x])
+            elif kind == 'filter_map':
+                o = yield from s.call_callable(ctx, fn, [x])
+                if o.variant == 0: keep = False; break
+                x = o.fields[0]
             elif kind == 'cloned' or kind == 'copied': x = clone_val(deref(x))
             elif kind == 'rev': pass
             else: raise Unsupported('iterator adapter ' + kind)
@@ -73,6 +77,10 @@ def _iter_next(s, ctx, it):
                 r = yield from s.call_callable(ctx, fn, [Ref(Cell(x, 'it'))])
                 if not ctx.branch(r): keep = False; break
             elif kind == 'map': x = yield from s.call_callable(ctx, fn, [x])
+            elif kind == 'filter_map':
+                o = yield from s.call_callable(ctx, fn, [x])
+                if o.variant == 0: keep = False; break
+                x = o.fields[0]
             elif kind in ('cloned', 'copied'): x = clone_val(deref(x))
             elif kind == 'rev': pass
             else: raise Unsupported('iterator adapter ' + kind)
@@ -202,16 +210,29 @@ def _builtin(s, ctx, func, g, tc, A, caller, ln, last):
             p = parts[0]; v = deref_all(p.fields[1])
             return Str(('fmt', p.fields[0], tkey, v, _norm_ty(p.fields[2])))
         return Str(('fmtn', tkey, tuple((p.fields[0], deref_all(p.fields[1]), _norm_ty(p.fields[2])) for p in parts)))
+    def seq_items(d): return list(d.items) if isinstance(d, SeqM) else list(d.fields)      # Vec / slice, or an array value
     if E('::concat') and ('slice' in g or '[' in g):
-        d = deref_all(A[0]); return Str(('join', '', list(d.items)))
+        d = deref_all(A[0]); return Str(('join', '', seq_items(d)))
     if E('::join') and ('slice' in g or '[' in g):
         d = deref_all(A[0]); sep = deref_all(A[1])
-        return Str(('join', sep.t if isinstance(sep, Str) else '?', list(d.items)))
+        return Str(('join', sep.t if isinstance(sep, Str) else '?', seq_items(d)))
     if E('str::to_lowercase') or E('<impl str>::to_lowercase') or E('<impl str>::to_uppercase'):
         v = deref_all(A[0])
         if isinstance(v.t, str): return Str(v.t.lower() if 'lower' in g else v.t.upper())
         raise Unsupported('case conversion of a symbolic string')
-    if E('String::push_str') or E('String::push'):
+    if E('String::push_str'):
+        tgt = deref_all(A[0]); add_ = deref_all(A[1])
+        if not isinstance(tgt, Str) or not isinstance(add_, Str): raise Unsupported('String::push_str on ' + type(tgt).__name__)
+        if isinstance(tgt.t, str) and isinstance(add_.t, str): tgt.t = tgt.t + add_.t
+        elif tgt.t == '': tgt.t = add_.t
+        elif add_.t == '': pass
+        else: tgt.t = ('join', '', [Str(tgt.t), Str(add_.t)])
+        tgt.cap = None
+        return unit()
+    if E('String::clear'):
+        tgt = deref_all(A[0])
+        if isinstance(tgt, Str): tgt.t = ''; return unit()
+    if E('String::push'):
         raise Unsupported('String mutation')
     # ------------------------------------------------------------ Vec / VecDeque
     if re.search(r'(Vec|VecDeque)::(new|with_capacity)$', g): return SeqM(kind='VecDeque' if 'VecDeque' in g else 'Vec')
@@ -305,8 +326,20 @@ def _builtin(s, ctx, func, g, tc, A, caller, ln, last):
             raise Unsupported('into_iter of ' + type(x).__name__)
         it = deref_all(A[0])
         if not isinstance(it, IterM): raise Unsupported(f'iterator method {m} on {type(it).__name__}')
-        if m in ('enumerate', 'filter', 'map', 'cloned', 'copied'):
+        if m in ('enumerate', 'filter', 'map', 'cloned', 'copied', 'filter_map'):
             it.adapters.append((m, A[1] if len(A) > 1 else None)); return it
+        if m in ('skip', 'take') and not it.adapters and is_conc(A[1]):
+            rest = it.items[it.pos:]; it.items = rest[A[1]:] if m == 'skip' else rest[:A[1]]; it.pos = 0; return it
+        if m in ('min_by_key', 'max_by_key'):
+            out = yield from _iter_items(s, ctx, it)
+            if it.guard is not None: s.drop_val(ctx, it.guard); it.guard = None
+            best = None; bk = None
+            for x in out:
+                k = yield from s.call_callable(ctx, A[1], [Ref(Cell(x, 'it'))])
+                if not (is_conc(k) or is_z3(k)): raise Unsupported(m + ' with a non-integer key')
+                # std: min_by_key keeps the first minimum, max_by_key the last maximum
+                if best is None or ctx.branch(simp(k < bk) if m == 'min_by_key' else simp(k >= bk)): best, bk = x, k
+            return some(best) if best is not None else none()
         if m == 'rev':
             if it.adapters: raise Unsupported('rev after adapters')
             it.items = list(reversed(it.items[it.pos:])); it.pos = 0; return it
